@@ -495,6 +495,141 @@ func (rn *runner) daParams(valid bool) {
 	rn.st.Nontriv(fmt.Sprintf("param|%s|%s|%s|%d", p.ChallengeThreshold, p.ReplicationFactor, p.SlashFaultThreshold, p.SlashEpoch))
 }
 
+// ---------------------------------------------------------------- asking the real validation
+// One field of one custom module's Params gets a garbage / boundary value (all other fields as
+// they are), the real Params.Validate (x/da: the real MsgUpdateParams handler) decides. One CField
+// case per offer; what is ACCEPTED becomes the chain's parameter set for the rest of the history.
+
+var decOffers = []string{"", "abc", "-0.1", "1.000000000000000001", "1e3", " 0.5", "0.5 ", "1", "0", "0.5", "0.999999999999999999",
+	"1.0000000000000000001", "+0.5", ".5", "0x10", "NaN", "-0", "2", "99999999999999999999999999999999999999999999999999999999999999999999999999999999999999999999999999",
+	"0.000000000000000001", "1.0"}
+var intOffers = []int64{0, -1, 1, 3, -9223372036854775808, 2}
+
+func (rn *runner) fieldCase(module, field string, kind int, v string, shown string, accepted bool, err error) {
+	e := ""
+	if err != nil {
+		e = cut(err.Error(), 160)
+	}
+	rn.add(fmt.Sprintf("(CField %d %s %s)", kind, v, emit.Bool(accepted)),
+		map[string]any{"kind": "param-field", "module": module, "field": field, "field_kind": kind, "offered": shown, "accepted": accepted, "err": e, "seed": rn.seed})
+	rn.st.Count(fmt.Sprintf("param-field:%s.%s:accepted=%v", module, field, accepted))
+	rn.st.Nontriv(fmt.Sprintf("field|%s|%s|%s", module, field, shown))
+}
+
+func intOpt(n int64) string { return emit.Some(emit.ZI(n)) }
+
+// paramFuzz offers k values; fields are drawn over all custom modules
+func (rn *runner) paramFuzz(k int) {
+	w, r := rn.w, rn.r
+	h := w.h
+	for ; k > 0; k-- {
+		ctx := h.Ctx()
+		ds := emit.Pick(r, decOffers...)
+		n := emit.Pick(r, intOffers...)
+		switch f := r.Intn(16); {
+		case f < 9: // x/da through the real MsgUpdateParams handler
+			p, err := h.App.DaKeeper.Params.Get(ctx)
+			if err != nil {
+				panic(err)
+			}
+			field, kind, v, shown := "", 1, decOpt(ds), ds
+			switch f {
+			case 0:
+				p.ChallengeThreshold, field = ds, "challenge_threshold"
+			case 1:
+				p.SlashFaultThreshold, field = ds, "slash_fault_threshold"
+			case 2, 3:
+				p.SlashFraction, field = ds, "slash_fraction"
+			case 4:
+				p.ReplicationFactor, field, kind = ds, "replication_factor", 4
+			case 5:
+				p.SlashEpoch, field, kind = uint64(n), "slash_epoch", 3
+				if n < 0 {
+					n = 1 // a uint64 field: the negative offers wrap to huge positive values
+					p.SlashEpoch = 1
+				}
+				v, shown = intOpt(n), fmt.Sprint(n)
+			case 6:
+				p.ChallengePeriod, field, kind, v, shown = time.Duration(n), "challenge_period", 3, intOpt(n), fmt.Sprint(n)
+			case 7:
+				p.ProofPeriod, field, kind, v, shown = time.Duration(n), "proof_period", 3, intOpt(n), fmt.Sprint(n)
+			default:
+				p.VerifiedRemovalPeriod, field, kind, v, shown = time.Duration(n), "verified_removal_period", 3, intOpt(n), fmt.Sprint(n)
+			}
+			err = apph.Tx(ctx, func(c sdk.Context) error {
+				_, e := rn.damsg.UpdateParams(c, &datypes.MsgUpdateParams{Authority: rn.daAuth, Params: p})
+				return e
+			})
+			rn.fieldCase("da", field, kind, v, shown, err == nil, err)
+		case f < 11:
+			p, err := h.App.LiquidityincentiveKeeper.Params.Get(ctx)
+			if err != nil {
+				panic(err)
+			}
+			field, kind, v, shown := "staking_reward_ratio", 1, decOpt(ds), ds
+			if f == 9 {
+				p.StakingRewardRatio = ds
+			} else {
+				p.EpochBlocks, field, kind, v, shown = n, "epoch_blocks", 3, intOpt(n), fmt.Sprint(n)
+			}
+			err = p.Validate()
+			if err == nil {
+				err = h.App.LiquidityincentiveKeeper.Params.Set(ctx, p)
+			}
+			rn.fieldCase("liquidityincentive", field, kind, v, shown, err == nil, err)
+		case f < 13:
+			p, err := h.App.LiquiditypoolKeeper.Params.Get(ctx)
+			if err != nil {
+				panic(err)
+			}
+			field := "withdraw_fee_rate"
+			if f == 11 {
+				p.WithdrawFeeRate = ds
+			} else {
+				p.SwapTreasuryTaxRate, field = ds, "swap_treasury_tax_rate"
+			}
+			err = p.Validate()
+			if err == nil {
+				err = h.App.LiquiditypoolKeeper.Params.Set(ctx, p)
+			}
+			rn.fieldCase("liquiditypool", field, 1, decOpt(ds), ds, err == nil, err)
+		case f == 13:
+			p, err := h.App.SwapKeeper.Params.Get(ctx)
+			if err != nil {
+				panic(err)
+			}
+			p.InterfaceFeeRate = ds
+			err = p.Validate()
+			if err == nil {
+				err = h.App.SwapKeeper.Params.Set(ctx, p)
+			}
+			rn.fieldCase("swap", "interface_fee_rate", 2, decOpt(ds), ds, err == nil, err)
+		case f == 14:
+			p, err := h.App.FeeKeeper.Params.Get(ctx)
+			if err != nil {
+				panic(err)
+			}
+			p.BurnRatio = ds
+			err = p.Validate()
+			if err == nil {
+				err = h.App.FeeKeeper.Params.Set(ctx, p)
+			}
+			rn.fieldCase("fee", "burn_ratio", 1, decOpt(ds), ds, err == nil, err)
+		default:
+			p, err := h.App.ShareclassKeeper.Params.Get(ctx)
+			if err != nil {
+				panic(err)
+			}
+			p.RewardPeriod = time.Duration(n)
+			err = p.Validate()
+			if err == nil {
+				err = h.App.ShareclassKeeper.Params.Set(ctx, p)
+			}
+			rn.fieldCase("shareclass", "reward_period", 3, intOpt(n), fmt.Sprint(n), err == nil, err)
+		}
+	}
+}
+
 func (rn *runner) liParams() {
 	w, r := rn.w, rn.r
 	ctx := w.h.Ctx()
@@ -987,6 +1122,9 @@ func (rn *runner) history(nBlocks int) {
 		}
 		if r.Chance(1, 15) {
 			rn.liParams()
+		}
+		if r.Chance(1, 6) {
+			rn.paramFuzz(1 + r.Intn(3))
 		}
 		vs, _ := rn.w.h.App.DaKeeper.GetSpecificStatusData(rn.w.h.Ctx(), datypes.Status_STATUS_VERIFIED)
 		if r.Chance(1, 8) || (len(vs) > 0 && r.Chance(1, 2)) {
